@@ -140,21 +140,29 @@ def trimSpace (s : Bytes) : Bytes := (trimRightAux 0 (trimLeftAux 0 s).reverse).
 
 /-! ### bufio.Scanner with ScanLines -/
 
-def maxTok : Nat := 65536
+def maxTok : Nat := 1048576
 
 def dropCRrev : Bytes → Bytes
   | 13 :: t => t
   | l => l
 
 /-- the tokens Scan delivers: lines without their \n and without one trailing \r; a last line without \n counts;
-as soon as 65536 bytes without a \n have been buffered Scan gives up (ErrTooLong, which ReadGenBank never looks at)
-and the rest of the input is never seen. `acc` is the current line reversed, `n` its length. -/
+as soon as 1 MiB without a \n has been buffered Scan gives up (ErrTooLong, which ReadGenBank reports after its loop
+since the fix; `tooLong` below) and the rest of the input is never seen. `acc` is the current line reversed, `n` its length. -/
 def scanLines : Bytes → Bytes → Nat → List Bytes
   | [], acc, _ => if acc = [] then [] else [(dropCRrev acc).reverse]
   | b :: t, acc, n =>
     if b = 10 then (dropCRrev acc).reverse :: scanLines t [] 0
     else if n + 1 ≥ maxTok then []
     else scanLines t (b :: acc) (n + 1)
+
+/-- Scan gave up on an over-long line somewhere in the text -/
+def tooLong : Bytes → Nat → Bool
+  | [], _ => false
+  | b :: t, n =>
+    if b = 10 then tooLong t 0
+    else if n + 1 ≥ maxTok then true
+    else tooLong t (n + 1)
 
 /-! ### strconv.Atoi with the kind of failure -/
 
@@ -550,6 +558,7 @@ structure Record where
 inductive Res where
   | ok (r : Record)
   | panic
+  | error      -- Scanner.Err after the loop (a line of 1 MiB or more)
   deriving DecidableEq, Repr
 
 /-- the bytes of `FEATURES` -/
@@ -593,7 +602,10 @@ def readLoop : List Bytes → RSt → Res
       else readLoop t { s with lines := l :: s.lines }
 
 def readGenBank (text : Bytes) : Res :=
-  readLoop (scanLines text [] 0) { first := true, header := [], lines := [], record := { features := none, origin := none } }
+  match readLoop (scanLines text [] 0) { first := true, header := [], lines := [], record := { features := none, origin := none } } with
+  | .panic => .panic
+  | .error => .error
+  | .ok r => if tooLong text 0 then .error else .ok r
 
 /-! ### structured locations: the five shapes of Model/Regions.lean as text -/
 
